@@ -229,7 +229,7 @@ PROPS = {
     "C01": {
         "modules": ["contracts.c01_transfer", "contracts.worker_units", "contracts.c15_throttle", "contracts.server_units"],
         "extra": ["contracts.index.c18_rt"],
-        "unit_filter": ["AsyncStreamIterator.__anext__", "retr_worker@retr", "stor_worker@stor", "stor_worker@appe", "ThrottleStreamIO.read", "ThrottleStreamIO.write", "Server.rest#SEQ", "Server.appe#SEQ", "Server.stor#SEQ"],
+        "unit_filter": ["AsyncStreamIterator.__anext__", "retr_worker@retr", "stor_worker@stor", "stor_worker@appe", "ThrottleStreamIO.read", "ThrottleStreamIO.write", "Server.rest#SEQ", "Server.appe#SEQ", "Server.stor#SEQ", "Client.get_stream", "DataConnectionThrottleStreamIO.__aexit__", "Client.upload/copy-loop"],
         "level": "proof",
         "trusted_base": [T_PY, T_ENGINE, T_SOLVER, T_AIO, T_CONN, "abstract backend file (assumed contract): sequential access after an optional seek; 'wb' truncates, 'ab' appends whatever was seeked, 'r+b' keeps the content; a write at position p pads with zeros beyond the end (pyvc/backend.py:FileHandle)"],
         "assumptions": [
@@ -239,7 +239,7 @@ PROPS = {
         "not_decided": [
             "kernel/TCP delivering what was written (T-aio)",
             "'every later download, stat or listing reflects the new content' beyond 'file and data stream closed before the completion reply' (backend visibility)",
-            "the client side (Client.upload / download copy loops, get_stream command order): not under contract yet",
+            "Client.download's copy loop (mirror image of the upload loop, which is under contract) and get_passive_connection (TYPE, then EPSV/PASV with fallback)",
             "that MemoryPathIO / Python file objects satisfy the abstract file contract (see C18)",
         ],
         "explanation": "",
@@ -276,7 +276,7 @@ PROPS = {
         "level": "proof",
         "trusted_base": [T_PY, T_ENGINE, T_SOLVER, T_AIO, "T-str: axiom schemas for rstrip / isdigit (uninterpreted functions constrained by consequences of the CPython semantics; DESIGN.md 2.9, 2.12)", "T-enc: encode/decode inverse and stateless"],
         "assumptions": ["carrier set of the round trip: reply lines without trailing whitespace (the property's own carrier: the client rstrips every line)", "segmentation independence is T-aio's readline contract"],
-        "not_decided": ["encodings in which 0x0A occurs inside a character", "BaseClient.command's wait/expected loop (uses parse_response and Code.matches through their contracts; not yet under contract itself)", "resynchronisation after a rejected reply: parse_response consumes whole lines only (follows from parse_line's contract), not stated as a separate obligation"],
+        "not_decided": ["encodings in which 0x0A occurs inside a character", "resynchronisation after a rejected reply: parse_response consumes whole lines only (follows from parse_line's contract), not stated as a separate obligation"],
         "explanation": "",
     },
     "C10": {
